@@ -4,7 +4,7 @@ import os
 import shutil
 from concurrent.futures import ThreadPoolExecutor
 
-from ..coqeval import term, Raw, Nat, opt, eval_checks
+from ..coqeval import term, Raw, Nat, opt, eval_shards, parse_eval_results, parse_nat_list
 from .. import util
 from .. import haplotag_gen as G
 
@@ -32,8 +32,9 @@ TRUSTED = [
     "and handed to the model as data",
 ]
 ASSUMPTIONS = [
-    "the BAM is coordinate sorted and indexed (required by the tool), read names are not shared between samples, BX barcodes "
-    "are not shared between samples, --linked-read-distance-cutoff >= 0",
+    "the BAM is coordinate sorted and indexed (required by the tool), --linked-read-distance-cutoff >= 0",
+    "read names and barcodes are identified together with the sample under which the tool files a decision (SM of the record's "
+    "read group; none with --ignore-read-groups): the model's name / barcode ids are interned (sample key, text) pairs",
     "the order-independent rule for linked reads (linked_tag_ok) is claimed where it is well defined: read names of a read set "
     "distinct and 'within the cut-off' transitive among the reads of the barcode",
     "stream conservation is claimed for every run of the repaired region rule (run_fixed, what /repo implements after the "
@@ -121,6 +122,50 @@ Definition U_NOLINKAPPL (u : config * list sample_in * list aln * list tags3) :=
 """
 
 
+# ====================================================================================== evaluation in Coq
+def coq_error_summary(rc, out, ncases):
+    """the beginning of coqc's message (location + error text), never the middle of a printed term"""
+    if not out.strip():
+        return f"coqc exited with status {rc} without output on a shard of {ncases} cases (killed / out of memory / timeout?)"
+    lines = out.splitlines()
+    start = next((i for i, ln in enumerate(lines) if ln.startswith("Error") or "Error:" in ln), None)
+    if start is None:
+        start = next((i for i, ln in enumerate(lines) if ln.startswith("File ")), 0)
+    elif start > 0 and lines[start - 1].startswith("File "):
+        start -= 1
+    head = [ln[:240] + (" ..." if len(ln) > 240 else "") for ln in lines[start:start + 14]]
+    return f"coqc exited with status {rc} on a shard of {ncases} cases:\n" + "\n".join(head)
+
+
+def eval_checks(name, header, check_fns, cases, shard=300, timeout=900):
+    """like coqeval.eval_checks, but errors keep the head of coqc's message"""
+    shards, offsets, sizes = [], [], []
+    labels = list(check_fns)
+    for off in range(0, len(cases), shard):
+        chunk = cases[off:off + shard]
+        body = "Definition cases := [\n" + ";\n".join(chunk) + "\n].\n"
+        for lab in labels:
+            body += (f"Eval vm_compute in (map fst (filter (fun p => negb (snd p)) "
+                     f"(combine (seq 0 (length cases)) (map ({check_fns[lab]}) cases)))).\n")
+        shards.append(body)
+        offsets.append(off)
+        sizes.append(len(chunk))
+    outs = eval_shards(name, header, shards, timeout=timeout)
+    failing = {lab: [] for lab in labels}
+    errors = []
+    for off, n, (rc, out, _) in zip(offsets, sizes, outs):
+        if rc != 0:
+            errors.append((off, coq_error_summary(rc, out, n)))
+            continue
+        terms = parse_eval_results(out)
+        if len(terms) != len(labels):
+            errors.append((off, f"unexpected Eval output ({len(terms)} results for {len(labels)} checks), beginning:\n" + out[:1200]))
+            continue
+        for lab, t in zip(labels, terms):
+            failing[lab] += [off + i for i in parse_nat_list(t)]
+    return failing, errors
+
+
 # ====================================================================================== BAM canonicalisation
 class Intern:
     def __init__(self):
@@ -146,7 +191,9 @@ def tagval(tags, t):
     return None
 
 
-def parse_bam(path, names, bxs, contents, rg_sample):
+def parse_bam(path, names, bxs, contents, rg_sample, ignore_rg=False):
+    """names / barcodes are interned together with the sample key under which the tool files a decision:
+    (SM of the record's read group | None, name); with --ignore-read-groups the key is None for everything."""
     import pysam
     recs = []
     with pysam.AlignmentFile(path, check_sq=False) as f:
@@ -159,11 +206,13 @@ def parse_bam(path, names, bxs, contents, rg_sample):
             bx = None
             rg = None
             for k, v, _ in tags:
-                if k == "BX" and v != "":
-                    bx = bxs(("bx", v))
                 if k == "RG":
                     rg = v
-            recs.append(dict(tid=a.reference_id, id=contents(key), name=names(a.query_name), start=a.reference_start,
+            skey = None if ignore_rg else rg_sample.get(rg)
+            for k, v, _ in tags:
+                if k == "BX" and v != "":
+                    bx = bxs(("bx", skey, v))
+            recs.append(dict(tid=a.reference_id, id=contents(key), name=names((skey, a.query_name)), start=a.reference_start,
                              end=endpos(a), unmapped=a.is_unmapped, secondary=a.is_secondary, suppl=a.is_supplementary, bx=bx,
                              tags=(tagval(tags, "HP"), tagval(tags, "PS"), tagval(tags, "PC")),
                              sample=rg_sample.get(rg), qname=a.query_name))
@@ -181,9 +230,9 @@ def tags_term(t):
     return Raw(f"({term(opt(t[0]))}, {term(opt(t[1]))}, {term(opt(t[2]))})")
 
 
-def read_term(r, names, bxs):
+def read_term(r, names, bxs, skey=None):
     name, start, bx, vs = r
-    return Raw(f"(mkRead {term(names(name))} {term(start)} {term(opt(bxs(('bx', bx)) if bx else None))} "
+    return Raw(f"(mkRead {term(names((skey, name)))} {term(start)} {term(opt(bxs(('bx', skey, bx)) if bx else None))} "
                f"{term([(p, a, q) for p, a, q in vs])})")
 
 
@@ -217,8 +266,9 @@ def run_case(ctx, case, keep=False):
         res["ext"] = ext
         names, bxs, contents = Intern(), Intern(), Intern()
         rg_sample = {r["ID"]: r.get("SM") for r in case["rgs"]}
-        res["inp"] = parse_bam(files["bam"], names, bxs, contents, rg_sample)
-        res["out"] = parse_bam(out_bam, names, bxs, contents, rg_sample) if rc == 0 and os.path.exists(out_bam) else []
+        irg = o["ignore_read_groups"]
+        res["inp"] = parse_bam(files["bam"], names, bxs, contents, rg_sample, irg)
+        res["out"] = parse_bam(out_bam, names, bxs, contents, rg_sample, irg) if rc == 0 and os.path.exists(out_bam) else []
         res["list"] = None
         if rc == 0 and o["haplotag_list"] and os.path.exists(out_list):
             lines = []
@@ -227,14 +277,18 @@ def run_case(ctx, case, keep=False):
                 if ln.startswith("#"):
                     continue
                 n, h, ps, ch = ln.rstrip("\n").split("\t")
-                lines.append((names(n), None if h == "none" else int(h[1:]), None if ps == "none" else int(ps),
+                # the list has bare names: line i belongs to the i-th written primary record of the chromosome loop
+                prim = res.setdefault("_prim", [x for x in res["out"] if x["tid"] >= 0 and not x["secondary"] and not x["suppl"]])
+                k = len(lines)
+                nid = prim[k]["name"] if k < len(prim) and prim[k]["qname"] == n else names(("?list", k, n))
+                lines.append((nid, None if h == "none" else int(h[1:]), None if ps == "none" else int(ps),
                               case["chroms"].index(ch) if ch in case["chroms"] else -5))
             res["list"] = lines
         res["swapped"] = None
         if case.get("swap") and rc == 0:
             out2 = os.path.join(wd, "out_swapped.bam")
             rc3, _, err3 = util.run_cli(ctx, G.cli_args(case, files, "vcf_swapped", out2, None), cwd=wd)
-            res["swapped"] = parse_bam(out2, names, bxs, contents, rg_sample) if rc3 == 0 else []
+            res["swapped"] = parse_bam(out2, names, bxs, contents, rg_sample, irg) if rc3 == 0 else []
         res["interns"] = (names, bxs)
         return res
     finally:
@@ -306,7 +360,7 @@ def case_term(case, res):
         exps.append([Raw(rows_term(G.expected_rows(case, c, s))) for s in order] if e else [])
         if e:
             for s in order:
-                samples.append(Raw("(" + rows_term(e["rows"][s]) + ", " + term([read_term(r, names, bxs) for r in e["reads"][s]]) + ")"))
+                samples.append(Raw("(" + rows_term(e["rows"][s]) + ", " + term([read_term(r, names, bxs, None if o["ignore_read_groups"] else s) for r in e["reads"][s]]) + ")"))
         alns = [aln_term(r) for r in res["inp"] if r["tid"] == ci]
         cts.append(Raw(f"(mkChrom {term(samples)} {term(alns)})"))
     regs = parsed_regions(case, res)
@@ -369,7 +423,7 @@ def check_cases(ctx, cases, label, report=True):
     shard = min(40, max(1, -(-len(terms) // 16)))
     failing, errors = eval_checks("C10cli", HEADER, CHECKS, terms, shard=shard)
     if errors:
-        raise RuntimeError("coq evaluation failed: " + errors[0][1])
+        raise RuntimeError(f"coq evaluation failed in {len(errors)} shard(s); first (cases from index {errors[0][0]}): " + errors[0][1])
     out = []
     for i, (c, r) in enumerate(zip(cases, results)):
         fails = {lab for lab in CHECKS if i in failing[lab]}
@@ -415,6 +469,10 @@ def feature_tallies(ctx, c, r):
     t = ctx.tally
     o = c["opts"]
     t("cli.cutoff." + str(o["cutoff"]))
+    if shared_between_samples(r):
+        t("cli.samples.read_name_in_two_samples" + (".ignore_read_groups" if o["ignore_read_groups"] else ""))
+    if c.get("shared_bx") and c.get("bx"):
+        t("cli.samples.barcodes_shared_by_samples")
     if c.get("bx_traps") and not o["ignore_linked_read"]:
         t("cli.bx.runs_with_constructed_far-before-near_barcode")
     t("cli.region_kind." + c.get("region_kind", "?"))
@@ -505,6 +563,15 @@ def feature_tallies(ctx, c, r):
                         t("cli.bx.barcode_with_near_and_far_reads")
 
 
+def shared_between_samples(r):
+    """does a read name or barcode occur in the read groups of two different samples of the input BAM?"""
+    seen = {}
+    for x in r["inp"]:
+        if x["tid"] >= 0:
+            seen.setdefault(x["qname"], set()).add(x["sample"])
+    return any(len(v) > 1 for v in seen.values())
+
+
 def describe(c, r):
     o = c["opts"]
     return (f"regions={o['regions']} ploidy={c['ploidy']} samples={o['samples']} opts="
@@ -570,7 +637,11 @@ def report_cli(ctx, evaluated, shrink=True):
             ctx.violation(sig, f"output stream is not the input stream restricted to the regions ({cls}): " + describe(rep, r),
                           {"kind": "cli", "case": rep})
         if "L1tag" in fails:
-            ctx.violation("haplotag:tag-rule", "a written alignment's HP/PS/PC contradict the best-haplotype rule: " + describe(c, r),
+            shared = shared_between_samples(r)
+            ctx.violation("haplotag:read-name-shared-by-two-samples-mistagged" if shared else "haplotag:tag-rule",
+                          ("an alignment of one sample carries tags that are not the decision for that sample's read of this name "
+                           "(read names / barcodes occur in several samples of the BAM): " if shared else
+                           "a written alignment's HP/PS/PC contradict the best-haplotype rule: ") + describe(c, r),
                           {"kind": "cli", "case": c})
         if "L1link" in fails:
             ctx.violation("haplotag:tag-rule-linked", "an alignment tagged through its own read does not carry the best haplotype of "
@@ -593,7 +664,8 @@ def report_cli(ctx, evaluated, shrink=True):
 def unit_impl(samples_rows, samples_reads, cfg, alns):
     """Direct call of the real prepare_haplotag_information / attempt_add_phase_information.
     samples_rows: [[(pos, hom, None|(block, [alleles]))]] per sample; samples_reads: [[(name, start, bx|None, [(pos, al, q)])]];
-    alns: [(name, start, bx|None)]. Returns the tags per alignment."""
+    alns: [(name, start, bx|None, sample index|None)]. Returns the tags per alignment."""
+    import inspect
     import pysam
     from whatshap.cli import haplotag as H
     from whatshap.core import Read, ReadSet, Genotype
@@ -626,12 +698,14 @@ def unit_impl(samples_rows, samples_reads, cfg, alns):
     bx2h, r2h, _ = H.prepare_haplotag_information(table, snames, FakeReader(), [(0, None)], not cfg["linked"], cfg["cutoff"],
                                                   cfg["ploidy"])
     out = []
-    for name, start, bx in alns:
+    per_sample = "sample" in inspect.signature(H.attempt_add_phase_information).parameters
+    for name, start, bx, smp in alns:
         a = pysam.AlignedSegment()
         a.query_name = name
         a.reference_start = start
         a.set_tags([("HP", 7), ("PS", 7), ("PC", 7)] + ([("BX", bx)] if bx else []))
-        tagged, _, _ = H.attempt_add_phase_information(a, r2h, bx2h, cfg["cutoff"], not cfg["linked"])
+        extra = (None if smp is None else snames[smp],) if per_sample else ()
+        tagged, _, _ = H.attempt_add_phase_information(a, r2h, bx2h, cfg["cutoff"], not cfg["linked"], *extra)
         if not tagged:
             for t in ("HP", "PS", "PC"):
                 a.set_tag(t, value=None)
@@ -642,10 +716,10 @@ def unit_impl(samples_rows, samples_reads, cfg, alns):
 
 def unit_term(samples_rows, samples_reads, cfg, alns, tags):
     names, bxs = Intern(), Intern()
-    st = [Raw("(" + rows_term([(p, h, ph) for p, h, ph in rows]) + ", " + term([read_term(r, names, bxs) for r in reads]) + ")")
-          for rows, reads in zip(samples_rows, samples_reads)]
-    al = [Raw(f"(mkAln 0 {term(names(n))} {term(s)} {term(s + 1)} false false false {term(opt(bxs(('bx', b)) if b else None))} "
-              f"(None, None, None))") for n, s, b in alns]
+    st = [Raw("(" + rows_term([(p, h, ph) for p, h, ph in rows]) + ", " + term([read_term(r, names, bxs, i) for r in reads]) + ")")
+          for i, (rows, reads) in enumerate(zip(samples_rows, samples_reads))]
+    al = [Raw(f"(mkAln 0 {term(names((k, n)))} {term(s)} {term(s + 1)} false false false "
+              f"{term(opt(bxs(('bx', k, b)) if b else None))} (None, None, None))") for n, s, b, k in alns]
     cfgt = Raw(f"(mkCfg {cfg['ploidy']}%nat {term(cfg['linked'])} {term(cfg['cutoff'])} false)")
     return f"({cfgt}, {term(st)}, {term(al)}, {term([tags_term(t) for t in tags])})"
 
@@ -663,7 +737,7 @@ def gen_unit_exhaustive(level):
                 if not vs:
                     continue
                 cfg = dict(ploidy=2, linked=True, cutoff=100)
-                yield [rows], [[("r1", 0, None, vs)]], cfg, [("r1", 0, None), ("other", 0, None)]
+                yield [rows], [[("r1", 0, None, vs)]], cfg, [("r1", 0, None, 0), ("other", 0, None, 0)]
     # two linked reads with one variant each
     for ph in itertools.product(((0, 1), (1, 0)), repeat=2):
         rows = [(10, False, (5, list(ph[0]))), (20, False, (5, list(ph[1])))]
@@ -672,7 +746,8 @@ def gen_unit_exhaustive(level):
                 for linked in (True, False):
                     cfg = dict(ploidy=2, linked=linked, cutoff=100)
                     reads = [("r1", 0, "B", [(10, a1, q1)]), ("r2", dist, "B", [(20, a2, q2)])]
-                    yield [rows], [reads], cfg, [("r1", 0, "B"), ("r2", dist, "B"), ("r3", 60, "B"), ("r4", 400, "B"), ("r5", 0, None)]
+                    yield [rows], [reads], cfg, [("r1", 0, "B", 0), ("r2", dist, "B", 0), ("r3", 60, "B", 0), ("r4", 400, "B", 0),
+                                                 ("r5", 0, None, 0)]
 
 
 def gen_unit_random(rng, n):
@@ -702,11 +777,11 @@ def gen_unit_random(rng, n):
                 vs = [(r[0], rng.randint(0, 1), rng.choice([0, 1, 1, 2, 3, 10, 30])) for r in phased if rng.random() < 0.6]
                 if vs:
                     reads.append((name, start, bx, vs))
-                alns.append((name, start, bx))
+                alns.append((name, start, bx, s))
                 if rng.random() < 0.2:
-                    alns.append((name, start + rng.randint(0, 40), bx))
+                    alns.append((name, start + rng.randint(0, 40), bx, s))
             for k in range(rng.randint(0, 3)):
-                alns.append((f"s{s}x{k}", rng.randint(0, 80), f"bx{s}_{rng.randrange(2)}" if rng.random() < 0.7 else None))
+                alns.append((f"s{s}x{k}", rng.randint(0, 80), f"bx{s}_{rng.randrange(2)}" if rng.random() < 0.7 else None, s))
             reads.sort(key=lambda r: (r[3][0][0], r[0]))
             srows.append(rows)
             sreads.append(reads)
@@ -736,11 +811,50 @@ def gen_unit_clustered(rng, n):
                     name = f"r{k}"
                     k += 1
                     reads.append((name, start, f"bx{b}", [(p, rng.randint(0, 1), rng.choice([1, 2, 3, 10, 30])) for p in vs]))
-                    alns.append((name, start, f"bx{b}"))
+                    alns.append((name, start, f"bx{b}", 0))
         for j in range(rng.randint(0, 2)):
-            alns.append((f"x{j}", rng.choice([0, 1000, 2000, 5000]) + rng.randint(0, 2 * c + 1), f"bx{rng.randrange(2)}"))
+            alns.append((f"x{j}", rng.choice([0, 1000, 2000, 5000]) + rng.randint(0, 2 * c + 1), f"bx{rng.randrange(2)}", 0))
         reads.sort(key=lambda r: (r[3][0][0], r[0]))
         yield [rows], [reads], cfg, alns
+
+
+def gen_unit_shared(rng, n):
+    """two or three samples in one BAM whose reads share names and barcodes; the samples' phasings differ, so the decision
+    for (sample A, name) differs from the one for (sample B, name); alignments of every sample, of an unknown sample
+    (no read group / read group without SM: index None) and alignments without a detected read"""
+    for _ in range(n):
+        pl = rng.choice([2, 2, 3])
+        ns = rng.choice([2, 2, 3])
+        cfg = dict(ploidy=pl, linked=rng.random() < 0.6, cutoff=rng.choice([0, 20, 1000]))
+        positions = list(range(10, 10 + 10 * rng.randint(1, 5), 10))
+        nreads = rng.randint(1, 4)
+        shared = []
+        for k in range(nreads):
+            vs = sorted(rng.sample(positions, rng.randint(1, len(positions))))
+            shared.append((f"r{k}", rng.randint(0, 50), f"bx{rng.randrange(2)}" if rng.random() < 0.6 else None,
+                           [(p, rng.randint(0, 1), rng.choice([1, 2, 10, 30])) for p in vs]))
+        srows, sreads, alns = [], [], []
+        for smp in range(ns):
+            rows = []
+            for p in positions:
+                ph = [rng.randint(0, 1) for _ in range(pl)]
+                if rng.random() < 0.9:
+                    rows.append((p, len(set(ph)) == 1, (rng.choice([7, 7, 107]), ph)))
+            have = {r[0] for r in rows}
+            reads = []
+            for name, start, bx, vs in shared:
+                if rng.random() < 0.85:            # same name (and barcode) in this sample, possibly other alleles
+                    vs2 = [(p, (a if rng.random() < 0.7 else 1 - a), q) for p, a, q in vs if p in have]
+                    if vs2:
+                        reads.append((name, start + rng.choice([0, 0, 5]), bx, vs2))
+                alns.append((name, start, bx, smp))
+            reads.sort(key=lambda r: (r[3][0][0], r[0]))
+            srows.append(rows)
+            sreads.append(reads)
+        for name, start, bx, vs in shared:
+            if rng.random() < 0.5:
+                alns.append((name, start, bx, None))
+        yield srows, sreads, cfg, alns
 
 
 def check_units(ctx, units, label):
@@ -761,14 +875,22 @@ def check_units(ctx, units, label):
         ctx.tally(f"unit.{label}")
         ctx.tally("unit.tagged", sum(1 for t in tags if t[0] is not None))
         ctx.tally("unit.untagged", sum(1 for t in tags if t[0] is None))
+        nm = [{r[0] for r in reads} for reads in sreads]
+        if any(nm[a] & nm[b] for a in range(len(nm)) for b in range(a)):
+            ctx.tally("unit.read_name_in_two_samples")
+        if any(a[3] is None for a in alns):
+            ctx.tally("unit.alignment_of_unknown_sample")
     shard = min(400, max(50, -(-len(terms) // 16)))
     failing, errors = eval_checks("C10unit", HEADER, {"L1": "U_L1", "L2": "U_L2", "NOLINKAPPL": "U_NOLINKAPPL"}, terms, shard=shard)
     if errors:
-        raise RuntimeError("coq evaluation failed: " + errors[0][1])
+        raise RuntimeError(f"coq evaluation failed in {len(errors)} shard(s); first (cases from index {errors[0][0]}): " + errors[0][1])
     ctx.tally("unit.cloud_rule_applied_to_split_barcode", len(failing["NOLINKAPPL"]))
     for i in failing["L1"]:
         srows, sreads, cfg, alns, tags = raw[i]
-        ctx.violation("haplotag:tag-rule", f"prepare_haplotag_information/attempt_add_phase_information contradict the best-haplotype "
+        names_of = [{r[0] for r in reads} for reads in sreads]
+        shared = any(names_of[a] & names_of[b] for a in range(len(names_of)) for b in range(a))
+        ctx.violation("haplotag:read-name-shared-by-two-samples-mistagged" if shared else "haplotag:tag-rule",
+                      f"prepare_haplotag_information/attempt_add_phase_information contradict the best-haplotype "
                       f"rule: rows={srows} reads={sreads} cfg={cfg} alns={alns} -> tags={tags}",
                       {"kind": "unit", "unit": [srows, sreads, cfg, alns]})
     return [dict(rows=raw[i][0], reads=raw[i][1], cfg=raw[i][2], alns=raw[i][3], impl_tags=raw[i][4]) for i in failing["L2"]]
@@ -802,7 +924,7 @@ def run(ctx):
     rng = ctx.rng
     # ---- unit stream (decision rule), exhaustive small tables + random
     units = (list(gen_unit_exhaustive(1 if ctx.quick else 2)) + list(gen_unit_random(rng, ctx.n(1500, 30000)))
-             + list(gen_unit_clustered(rng, ctx.n(600, 10000))))
+             + list(gen_unit_clustered(rng, ctx.n(600, 10000))) + list(gen_unit_shared(rng, ctx.n(600, 10000))))
     ul2 = check_units(ctx, units, "all")
     ctx.extra["unit_exhaustive_tables"] = sum(1 for _ in gen_unit_exhaustive(1 if ctx.quick else 2))
     ctx.exhaustive = True
@@ -811,6 +933,8 @@ def run(ctx):
     for kind in ("overlapping", "unsorted", "sorted-near", "sorted-far", "chrom-order", "chrom", "open", "single", "edge"):
         cases += [G.gen_case(rng, region_kind=kind) for _ in range(ctx.n(3, 25))]
     cases += [G.gen_case(rng, region_kind="none") for _ in range(ctx.n(40, 250))]
+    # read names and barcodes shared between the samples of one BAM
+    cases += [G.gen_case(rng, shared=True, region_kind=rng.choice(["none", "none", "chrom", "single"])) for _ in range(ctx.n(10, 80))]
     # contigs holding only placed-but-unmapped records (last / in the middle of the header), empty contigs
     for sp in ("unmapped-only-last", "unmapped-only-middle"):
         for kind in ("none", "special", "chrom"):
@@ -847,7 +971,7 @@ def replay(ctx, data):
         srows, sreads, cfg, alns = data["unit"]
         srows = [[(p, h, None if ph is None else (ph[0], ph[1])) for p, h, ph in rows] for rows in srows]
         sreads = [[(n, s, b, [tuple(v) for v in vs]) for n, s, b, vs in reads] for reads in sreads]
-        ul2 = check_units(ctx, [(srows, sreads, cfg, [tuple(a) for a in alns])], "replay")
+        ul2 = check_units(ctx, [(srows, sreads, cfg, [tuple(a) if len(a) == 4 else tuple(a) + (0,) for a in alns])], "replay")
         if ul2:
             ctx.l2_disagreement("Haplotag.prepare/tag_aln (L2)", ul2)
     else:
